@@ -43,6 +43,17 @@ def near(L):
     return g
 
 
+def far(L):
+    """the lattice moved far away from the origin (2^27): exact, but absolute times carry
+    ~27 bits more than their differences, so that formulas in absolute time (slope*t +
+    intercept, sums of x*y) lose what formulas in time differences keep"""
+    return [2.0 ** 27 + T0 + i * U for i in range(L + 1)]
+
+
+def grid_of(spec):
+    return {"reg": reg, "near": near, "far": far}[spec[0]](spec[1])
+
+
 def as_grid(L_or_G):
     if isinstance(L_or_G, int):
         return reg(L_or_G)
@@ -216,8 +227,8 @@ def _subsets(n):
 
 
 PWC_PATTERNS = ["pos", "neg", "alt", "int"]
-PWL_PATTERNS = ["ramp", "jump", "negslope"]
-DISC_PATTERNS = ["ones", "mixed"]
+PWL_PATTERNS = ["ramp", "jump", "negslope", "thirds"]
+DISC_PATTERNS = ["ones", "mixed", "heavy"]
 
 
 def pwc_menu(L_or_G, patterns=PWC_PATTERNS):
@@ -258,18 +269,26 @@ def pwl_menu(L_or_G, patterns=PWL_PATTERNS):
         for pat in patterns:
             y1, y2, cells = [], [], []
             for j in range(npieces):
-                # slope s per lattice unit U; all values stay dyadic
-                if pat == "ramp":          # continuous ramp
-                    a, s = (G[idx[j]] - G[0]) / U, 1.0
-                elif pat == "jump":        # jumps at breakpoints
-                    a, s = float(j + 1) * (1.0 if j % 2 == 0 else -1.0), 0.5
-                else:                      # negative slope
-                    a, s = float(2 * j + 1), -0.25
-                val = lambda t: a + s * (t - G[idx[j]]) / U
-                y1.append(val(G[idx[j]]))
-                y2.append(val(G[idx[j + 1]]))
+                width = (G[idx[j + 1]] - G[idx[j]]) / U      # piece width in lattice units
+                if pat == "ramp":          # continuous ramp, slope 1 per unit
+                    a, e = (G[idx[j]] - G[0]) / U, (G[idx[j + 1]] - G[0]) / U
+                elif pat == "jump":        # jumps at breakpoints, slope 1/2 per unit
+                    a = float(j + 1) * (1.0 if j % 2 == 0 else -1.0)
+                    e = a + 0.5 * width
+                elif pat == "negslope":    # negative slope
+                    a = float(2 * j + 1)
+                    e = a - 0.25 * width
+                else:                      # "thirds": values that are not dyadic
+                    a = (j + 1) / 3.0
+                    e = a + width / 3.0
+                y1.append(a)
+                y2.append(e)
+                # the model interpolates exactly between the float end values actually passed
+                fa, fe = Fr(a), Fr(e)
+                x0, x1 = Fr(G[idx[j]]), Fr(G[idx[j + 1]])
+                at = lambda t: fa + (fe - fa) * (Fr(t) - x0) / (x1 - x0)
                 for u in range(idx[j], idx[j + 1]):
-                    cells.append((val(G[u]), val(G[u + 1])))
+                    cells.append((at(G[u]), at(G[u + 1])))
             out.append(("pwl:%s:%s" % (",".join(map(str, bps)), pat), (x, y1, y2),
                         ModelPWL(G, bps, cells)))
     return out
@@ -289,8 +308,10 @@ def disc_menu(L_or_G, patterns=DISC_PATTERNS, max_events=None):
                 for m_, k in enumerate(ks):
                     if pat == "ones":
                         ev[k] = (float(m_ % 2), 1.0)
-                    else:
+                    elif pat == "mixed":
                         ev[k] = (float((m_ % 3)), float(1 + (m_ + k) % 2))
+                    else:   # multiplicities up to 4, larger than a smoothing window's worth
+                        ev[k] = (float((2 * m_ + k) % 5), float(1 + (2 * m_ + k) % 4))
                 m = ModelDisc(G, ev)
                 xs = [G[k] for k in ks]
                 ys = [ev[k][0] for k in ks]
@@ -368,6 +389,13 @@ def do_transition(kind, by_name, hist, ev, probe_name):
     obj, model = replay_history(kind, by_name, hist)       # fresh live object
     before = canon(kind, obj)
     try:
+        # read-only queries before the event: results computed (and possibly cached) now
+        # must not leak into the state after the event
+        obj.integral()
+        obj.avrg()
+        if canon(kind, obj) != before:
+            viol.append(("read_modifies", before, canon(kind, obj),
+                         "integral()/avrg() modified the function"))
         if ev[0] == "add":
             gargs, gm = by_name[ev[1]]
             g = build(kind, gargs)
